@@ -12,6 +12,7 @@ Decided:
          cross-midnight (end <= start): m >= start or m < end, spill-over from the previous weekday
   R02.7  a slot whose scoreboard entry is a blocking marker is offered only when part of it was released
   R02.8  a value remembered between calendar queries is keyed by the parameters it was computed from (no lossy memo key)
+  R02.9  available() answers True only when the slot-table entry is known not to be a blocking marker (leave / off-shift)
   R02.6  local time: weekday / minute are taken after the time-zone conversion
 Not decided: minute-exact containment when shift edges are not slot aligned, DST arithmetic.
 """
@@ -311,6 +312,9 @@ def run(ctx: Ctx):
     from .c01 import partial_reoffer_rule
     partial_reoffer_rule(ctx, "R02.7")
     ctx.floor("R02.7", 1)
+    from .c01 import marker_never_offered_rule
+    marker_never_offered_rule(ctx, "R02.9")
+    ctx.floor("R02.9", 1)
     ctx.floor("R02.1", 16)
     ctx.floor("R02.3", 5)
     ctx.floor("R02.5", 9)
